@@ -53,6 +53,18 @@
    orders; a fixed ext comes last).  Whatever view name the service code might hand back from a method whose view is
    fixed in the design is ignored (`chosen` of such a case: a decoy).
 
+   Collections: how a collection result type is DECLARED is a dimension `cd` of the graphs that have one (G3, G7, G9; req =
+   base, mo = 1), each collection being the first one declared for its element:
+              "plain"  CollectionOf(Elem)
+              "empty"  CollectionOf(Elem, func() {})                          a DSL that says nothing
+              "desc"   CollectionOf(Elem, func() { Description(..) })         a DSL that does not mention views
+                       in these three the collection has the views of its element: every view renders every element with
+                       exactly that view's attributes and the response is labelled with it
+              "vtiny"  CollectionOf(Elem, func() { View("tiny") })            (top-level collections; "vext" likewise where
+                       the element has a view ext): the collection is rendered with that view, whatever the service
+                       says: it is fixed in the design, by the type instead of the method (the service's own type then
+                       only has the attributes of the view: `sval` below)
+
    Values: which attributes the service set (required primitives always: a Go service cannot leave them out), and
    `bad`: at most one validated attribute carrying a value that breaks its validation.
 *)
@@ -140,9 +152,16 @@ ASSUME ReqModes \subseteq Reqs /\ AllFixed \in BOOLEAN
 \* declaration orders of the three view disciplines ("-": the service method names the view)
 Perms == << <<"-", "default", "tiny">>, <<"-", "tiny", "default">>, <<"default", "-", "tiny">>,
             <<"default", "tiny", "-">>, <<"tiny", "-", "default">>, <<"tiny", "default", "-">> >>
-Variants == {k \in [g: Graphs, order: Orders, req: ReqModes, mo: DOMAIN Perms] :
+CollDecls == {"plain", "empty", "desc", "vtiny", "vext"}
+HasExt(g) == \E i \in DOMAIN BaseViews(g, "T") : BaseViews(g, "T")[i].name = "ext"
+Variants == {k \in [g: Graphs, order: Orders, req: ReqModes, mo: DOMAIN Perms, cd: CollDecls] :
                /\ k.g = "G4" => k.order = "first" /\ k.req = "base"
-               /\ k.mo # 1 => k.g \in {"G1", "G2", "G3"} /\ k.order = "first" /\ k.req = "base"}
+               /\ k.mo # 1 => k.g \in {"G1", "G2", "G3"} /\ k.order = "first" /\ k.req = "base"
+               /\ k.cd # "plain" => k.g \in {"G3", "G7", "G9"} /\ k.req = "base" /\ k.mo = 1
+               /\ k.cd \in {"vtiny", "vext"} => TopColl(k.g)
+               /\ k.cd = "vext" => HasExt(k.g)}
+\* the view a collection declaration fixes ("-": none)
+CollFixed(k) == CASE k.cd = "vtiny" -> "tiny" [] k.cd = "vext" -> "ext" [] OTHER -> "-"
 Extra(t) == IF t = "T" THEN "e" ELSE "z"
 Attrs(k, t) == IF k.req = "oth" THEN Append(BaseAttrs(k.g, t), P(Extra(t))) ELSE BaseAttrs(k.g, t)
 AttrOf(k, t, a) == CHOOSE x \in Range(Attrs(k, t)) : x.attr = a
@@ -154,7 +173,8 @@ DeclViews(k, t) ==
       df == SelectSeq(vs, LAMBDA v : v.name = "default")
   IN CASE k.order = "first" -> df \o nd [] k.order = "last" -> nd \o df [] OTHER -> nd
 ViewsOf(k) == {v.name : v \in Range(DeclViews(k, "T"))} \cup {"default"}
-FixedViews(k) == IF AllFixed \/ (k.order = "first" /\ k.req = "base") THEN ViewsOf(k) ELSE {}
+FixedViews(k) == IF CollFixed(k) # "-" THEN {}
+                 ELSE IF AllFixed \/ (k.order = "first" /\ k.req = "base") THEN ViewsOf(k) ELSE {}
 \* the methods of the variant's service in declaration order, each by the view it fixes ("-": none)
 Methods(k) == IF FixedViews(k) = {} THEN <<"-">>
               ELSE SelectSeq(Perms[k.mo], LAMBDA m : m = "-" \/ m \in FixedViews(k)) \o (IF "ext" \in FixedViews(k) THEN <<"ext">> ELSE <<>>)
@@ -217,20 +237,21 @@ Derefs(k, t, keys, prefix, depth) ==
        \/ p \in keys /\ Derefs(k, a.typ, keys, p, depth - 1)
 
 ---------------------------------------------------------------------------
-VARIABLES cfg,      \* [g, order, req, mo: the variant; fixed: view name fixed in the design or "-"; chosen: view the service method names ("" = default)]
+VARIABLES cfg,      \* [g, order, req, mo, cd: the variant; fixed: view name fixed in the design or "-"; chosen: view the service method names ("" = default)]
           val,      \* set of attribute paths the service set
           bad,      \* subset of val: attributes whose value breaks their validation
           pc, sres, wireKeys, viewHeader, clientKeys, cerr
 vars == <<cfg, val, bad, pc, sres, wireKeys, viewHeader, clientKeys, cerr>>
 
-K == [g |-> cfg.g, order |-> cfg.order, req |-> cfg.req, mo |-> cfg.mo]
+K == [g |-> cfg.g, order |-> cfg.order, req |-> cfg.req, mo |-> cfg.mo, cd |-> cfg.cd]
 EffView == IF cfg.fixed # "-" THEN cfg.fixed ELSE IF cfg.chosen = "" THEN "default" ELSE cfg.chosen
 Expected == Proj(K, "T", EffView, val, "", 4)
 ValidServed == Valid(K, "T", EffView, Expected, bad, "", 4, TRUE)
 
 Init ==
   /\ \E k \in Variants :
-       cfg \in {c \in [g: {k.g}, order: {k.order}, req: {k.req}, mo: {k.mo}, fixed: {"-"} \cup FixedViews(k), chosen: {"", "bogus"} \cup ViewsOf(k)] :
+       cfg \in {c \in [g: {k.g}, order: {k.order}, req: {k.req}, mo: {k.mo}, cd: {k.cd},
+                         fixed: IF CollFixed(k) # "-" THEN {CollFixed(k)} ELSE {"-"} \cup FixedViews(k), chosen: {"", "bogus"} \cup ViewsOf(k)] :
                   c.fixed # "-" => c.chosen \notin {"bogus", c.fixed}}
   /\ val \in ValueSpace(K)
   /\ bad \in BadSpace(K, val)
